@@ -265,14 +265,19 @@ def pass_only_rule(ctx: Ctx, rule: str) -> None:
 
     credited = set()
     understood = True
-    for v in loop_iteration_views(ctx, fref, outer[0], None):
+    from ..paths import Step
+    import copy as _copy
+
+    # literals named before the loop (setup_statuses = ["PASS", "WARN"]) are part of the test
+    pre = [Step("stmt", s_) for s_ in fn.node.body if isinstance(s_, ast.Assign) and fn.node.body.index(s_) < fn.node.body.index(outer[0])] if outer[0] in fn.node.body else []
+    for v in loop_iteration_views(ctx, fref, outer[0], None, pre_steps=pre):
         if not any(True for _ in v.calls(is_add)):
             continue
         first_add = next(i for i, c in v.calls(is_add))
         allowed = set(STATUS_UNIVERSE_UP)
-        for st in v.steps[:first_add]:
+        for idx, st in enumerate(v.steps[:first_add]):
             if st.kind == "cond" and f"{res}['status']" in ast.unparse(st.node):
-                t = _truth_over_statuses(st.node, f"{res}['status']")
+                t = _truth_over_statuses(v.canon(_copy.deepcopy(st.node), idx), f"{res}['status']")
                 if t is None:
                     understood = False
                     break
